@@ -113,8 +113,8 @@ pub(crate) fn year_doy_to_days(
 
     doy -= 1;
 
-    // Ignores leap day if ignore_leap is true
-    if ignore_leap && is_leap_year(year) && doy >= 60 {
+    // Ignores leap day if ignore_leap is true (doy is zero based here, 59 is the 1st of March in a non leap year)
+    if ignore_leap && is_leap_year(year) && doy >= 59 {
         doy += 1;
     }
 
